@@ -635,6 +635,10 @@ static void gen_C04(const std::string &tier, uint64_t seed, long idx, Scn &s) {
   if (g.chance(0.3)) s.i["sw1"] = 8;
   if (is_prod()) { s.i["st1"] = simsched::ST_STICKY; s.i["sp1"] = 9999; s.i["sw1"] = 2; }
   if (!is_prod() && idx % 19 == 5) s.i["fresh"] = 1;
+  if (!is_prod() && s.i["op"] == 0 && g.chance(0.15)) {
+    if (g.chance(0.5)) s.i["rerr"] = (long)g.below((uint64_t)len + 1);
+    else s.i["werr"] = (long)g.below((uint64_t)(48 + 20 * T + len + 16) + 1);
+  }
 }
 
 static Verdict run_C04(const Scn &s) {
@@ -648,8 +652,13 @@ static Verdict run_C04(const Scn &s) {
   fin.data = P;
   OpResult r;
   if (op == 0) {
+    // I/O faults while the pipeline runs: the input becomes unreadable from some offset on (EIO), the disk fills up
+    if (s.geti("rerr", -1) >= 0) fin.read_err_at = s.geti("rerr");
+    if (s.geti("werr", -1) >= 0) fenc.size_cap = s.geti("werr");
     OpSpec e = base_op(s, OP_ENC, 1, &fin, &fenc, len);
     r = run_slot(s, e, 1, "enc", HANG_VIOLATION);
+    if (fin.read_errors) g_stats.add("fault.read_error_EIO", fin.read_errors);
+    if (fenc.cap_hit) g_stats.add("fault.disk_full_ENOSPC", 1);
   } else {
     OpSpec e = base_op(s, OP_ENC, 0, &fin, &fenc, len);
     e.sc = sc_canonical(len, T);
